@@ -616,6 +616,8 @@ def numeric(ctx, p):
             m2 = ([20 + k], [30 + k]) if cls == "D" else [20 + k, 30 + k]
             (net.add_simplex if cls == "S" else net.add_edge)(m2)
         after = nets.snap(net)
+    bad = nets.inv_D(net) if cls == "D" else nets.inv_H(net)
+    ctx.require(not bad, "incidence invariant broken after automatic additions next to an integer-like id of another numeric type")
     ok = all(e in after["members"] and nets.same(before["members"][e], after["members"][e]) for e in before["edges"])
     ctx.require(ok, "an automatic addition altered or replaced an edge whose id is an integer-like number of another type")
     ctx.require(len(after["edges"]) == len(before["edges"]) + 5, "automatic additions were lost after an integer-like id of another numeric type")
